@@ -258,6 +258,31 @@ def _bool(ex, st, args, kwargs, k, where):
     return k(st, VBool(ex.truthy(st, args[0])))
 
 
+@builtin("bytes")
+def _bytes_ctor(ex, st, args, kwargs, k, where):
+    """bytes(x): identity on bytes; bytes(n) = n octets (content left arbitrary, length n; ValueError for n < 0);
+    bytes(str) without an encoding is a TypeError; anything else is outside the subset"""
+    if not args and not kwargs:
+        return k(st, VBytes(seq_empty(SEQI)))
+    if len(args) != 1 or kwargs:
+        raise Unsupported(f"bytes() with these arguments at {where}")
+    v = args[0]
+    if v is VNone or isinstance(v, VOpt):
+        return ex.split_opt(st, v, lambda s: ex.raise_(s, "TypeError", f"bytes(None) at {where}"),
+                            lambda s, inner: _bytes_ctor(ex, s, [inner], kwargs, k, where))
+    if isinstance(v, VBytes):
+        return k(st, v)
+    if isinstance(v, VStr):
+        return ex.raise_(st, "TypeError", f"bytes(str) without encoding at {where}")
+    if isinstance(v, VInt):
+        outs = ex.raise_(st.assume(Lt(v.t, I(0))), "ValueError", f"bytes(negative) at {where}")
+        s2 = st.assume(Ge(v.t, I(0)))
+        t = ex.arbitrary(SEQI, "bytes_n")
+        s2.pc.append(Eq(seq_len(t), v.t))
+        return outs + k(s2, VBytes(t))
+    raise Unsupported(f"bytes() of {v!r} at {where}")
+
+
 @builtin("int")
 def _int(ex, st, args, kwargs, k, where):
     v = args[0]
@@ -462,6 +487,20 @@ def _b_decode(ex, st, base, args, kwargs, k, where):
     s2 = st.assume(valid)
     outs += k(s2, REG.specfns["utf8dec"](ex, s2, base))
     return outs
+
+
+def _b_case(fname):
+    def f(ex, st, base, args, kwargs, k, where):
+        # bytes.lower()/upper(): an uninterpreted, length-preserving, idempotent function of the byte string
+        t = _ufun(ex, fname, [SEQI], SEQI, base.t)
+        st.pc.append(Eq(seq_len(t), seq_len(base.t)))
+        st.pc.append(Eq(_ufun(ex, fname, [SEQI], SEQI, t), t))
+        return k(st, VBytes(t))
+    return f
+
+
+METHODS[("VBytes", "lower")] = _b_case("bytes_lower")
+METHODS[("VBytes", "upper")] = _b_case("bytes_upper")
 
 
 @method("VBytes", "hex")
